@@ -194,6 +194,8 @@ def run_case(vk, case):
         seq = [s0[g[0]] for g in el_groups]
         if any(seq[i] < seq[i + 1] for i in range(len(seq) - 1)) or any(len({s0[c] for c in g}) > 1 for g in el_groups):
             monitors.append({"name": "descending-groups", "detail": f"{el_groups} {s0}", "failure": {"rule": rule, "kind": "order"}})
+        for f in elect.score_class_failures(e, "first"):
+            monitors.append(dict(f, failure={"rule": rule, "kind": "tie-reporting"}))
         if e.election_states[1].tiebreaks:
             tags.append("tiebreak-recorded")
     return {"req": req, "expect": expect, "monitors": monitors, "tags": tags, "nontrivial": len(spec["b"]) > 0}
